@@ -5,6 +5,7 @@ operation that broke the object, also for objects the interpreter never sees), a
 inspects every live object after every step. Conditions record and return True: they never raise into gearpy.
 """
 import math
+import os
 from fractions import Fraction
 from ..ref import si as SI
 
@@ -386,8 +387,46 @@ def rule_constructor_cases(ctx, rep):
             ctx.violation('C19:constructor', {'case': f'StartLimitCurrent limit {v}', 'expected': exp, 'observed': out}, {'kind': 'rulector', 'rep': rep})
 
 
+def repo_tests_under_contracts(ctx):
+    """thorough tier, one shard: the repository's own unit tests executed with the invariants armed (vf/pytest_contracts.py).
+    The tests are a workload here, not an oracle: what is judged is what the invariants saw while they ran."""
+    import glob
+    import json
+    import shutil
+    import subprocess
+    import sys
+    from .. import core
+    repo = core.repo_path()
+    root = os.path.dirname(os.path.dirname(os.path.dirname(os.path.abspath(__file__))))
+    logd = os.path.join(ctx.scratch, 'contract-log')
+    shutil.rmtree(logd, ignore_errors=True)
+    env = dict(os.environ, VERIF_CONTRACT_LOG=logd, PYTHONDONTWRITEBYTECODE='1',
+               PYTHONPATH=os.pathsep.join([root, os.path.join(root, '.deps'), repo]))
+    dirs = [d for d in ('tests/test_units', 'tests/test_sensors', 'tests/test_motor_control', 'tests/test_solver') if os.path.isdir(os.path.join(repo, d))]
+    try:
+        r = subprocess.run([sys.executable, '-B', '-m', 'pytest', '-q', '-p', 'no:cacheprovider', '-p', 'vf.pytest_contracts', '-n', '6'] + dirs,
+                           cwd=repo, env=env, capture_output=True, text=True, timeout=2400)
+    except subprocess.TimeoutExpired:
+        ctx.observe('repository tests under contracts: timed out (not judged)')
+        return
+    tail = (r.stdout.strip().splitlines() or [''])[-1]
+    ctx.observe('repository tests under contracts: ' + ('pytest exit 0' if r.returncode == 0 else f'pytest exit {r.returncode} (not judged)'), {'last_line': tail[:200]})
+    ev, bad = 0, []
+    for f in glob.glob(os.path.join(logd, '*.json')):
+        d = json.load(open(f))
+        ev += d['evals']
+        bad += d['bad']
+    ctx.count('invariant_evaluations_during_repository_tests', ev)
+    ctx.count('repository_test_processes_logged', len(glob.glob(os.path.join(logd, '*.json'))))
+    if bad:
+        ctx.violation('C19:invalid-quantity-alive-during-repository-tests', {'log': bad[:8], 'count': len(bad)}, {'kind': 'repo-tests'})
+    shutil.rmtree(logd, ignore_errors=True)
+
+
 def shard(ctx):
     arm()
+    if ctx.tier == 'thorough' and ctx.shard == 0:
+        repo_tests_under_contracts(ctx)
     n = n_cases(ctx.tier)
     for i in ctx.my_cases(n):
         run_program(ctx, i, ctx.tier, extreme=(ctx.rng('ext', i).random() < 0.2))
